@@ -113,7 +113,62 @@ def c16_r3(ctx):
         ctx.viol('%s|comparator' % f.path, f.at,
                  'Ord for reorder::TimestampedItem no longer compares self.timestamp with other.timestamp in ascending order', None)
     nx = facts.method(REORDER, 'next', trait=OP)
-    sorts = [(bi, t) for bi, t in nx.calls() if 'sort' in (t['callee'].get('path') or '')]
+
+    def is_real_sort(t):
+        p_ = t['callee'].get('path') or ''
+        return p_.startswith('glidesort::') or p_.startswith('core::slice::<impl [T]>::sort') or '::sort_unstable' in p_ or p_.endswith('::sort') or '::sort_by' in p_
+
+    def sort_guard_ok(fn_, bi_):
+        """the sort may only be skipped for buffers of fewer than two elements: its path condition must hold for every
+        length >= 2 (atoms may only compare the buffer length with a literal)"""
+        dnf_ = q.cond_of_block(facts, fn_, bi_)
+        import re as _re
+        for ln in (2, 3, 4, 7):
+            sat = False
+            for c in dnf_:
+                ok_c = True
+                for a in c:
+                    if a[0] == 'is' and a[1] == '<input>':
+                        continue
+                    if a[0] == 'is' and a[2] in ('Watermark', 'FlushAndRestart'):
+                        continue
+                    if a[0] == 'bool' and ('received_end' in a[1] or 'is_none' in a[1]):
+                        continue
+                    if a[0] == 'cmp':
+                        sides = [a[1], a[2]]
+                        lit = [x for x in sides if _re.match(r'^\d+_usize$', x)]
+                        le = [x for x in sides if 'len(' in x and 'buffer' in x]
+                        if len(lit) == 1 and len(le) == 1:
+                            n_ = int(lit[0].split('_')[0])
+                            rel = a[3] if sides[0] == le[0] else frozenset(FLIP[r] for r in a[3])
+                            cur = '<' if ln < n_ else ('=' if ln == n_ else '>')
+                            if cur not in rel:
+                                ok_c = False
+                            continue
+                    ok_c = False
+                if ok_c:
+                    sat = True
+            if not sat:
+                return False, q.show_dnf(dnf_)
+        return True, q.show_dnf(dnf_)
+
+    sorts = []          # (block in next, terminator, edges) of sorts that are effective for every buffer of >= 2 elements
+    for bi, t in nx.calls():
+        if is_real_sort(t):
+            sorts.append((bi, t))
+            continue
+        # a helper of the same type that performs the sort
+        callee = facts.fn(t['callee'].get('resolved') or t['callee'].get('path') or '', required=False)
+        if callee is not None and callee.impl_adt == nx.impl_adt and callee.path != nx.path:
+            inner = [(b2, t2) for b2, t2 in callee.calls() if is_real_sort(t2)]
+            if inner:
+                okg, shown = sort_guard_ok(callee, inner[0][0])
+                ctx.inst('Reorder|sort helper %s' % callee.name, {'sort guard': shown, 'covers every buffer of >= 2 elements': okg})
+                if okg:
+                    sorts.append((bi, t))
+                else:
+                    ctx.viol('%s|sort-skipped' % callee.path, inner[0][1]['at'],
+                             'the reorder buffer is sorted only under %s: some buffer of two or more elements is released unsorted' % shown, None)
     ctx.inst('Reorder::next|sort', {'sort calls': [t['at'] for _, t in sorts]})
     if not sorts:
         ctx.viol('%s|no-sort' % nx.path, nx.at, 'Reorder::next never sorts its buffer', None)
@@ -124,6 +179,11 @@ def c16_r3(ctx):
             for a in c:
                 if a[0] == 'is' and a[1] == '<input>':
                     ins.add(a[2])
+        if is_real_sort(t):
+            okg, shown = sort_guard_ok(nx, bi)
+            if not okg:
+                ctx.viol('%s|sort-skipped' % nx.path, t['at'],
+                         'the reorder buffer is sorted only under %s: some buffer of two or more elements is released unsorted' % shown, None)
     if not {'Watermark', 'FlushAndRestart'} <= ins:
         ctx.viol('%s|sort-edges' % nx.path, nx.at,
                  'Reorder::next sorts only on %s: elements could be released unsorted on the other release trigger' % sorted(ins), None)
